@@ -1,8 +1,9 @@
 package fiber
 
-// Replay of the counterexample to (*App).ErrorHandler/post:innermost-scoped-else-root and
-// .../inv:loop1.preserve:no-longer-scoped-seen (property C08): the error handler is a function of the
-// request path and the mount structure alone, and a mount prefix only "contains" a path on a segment
+// Replay of the counterexample to (*App).ErrorHandler/inv:loop1.preserve:best-is-scoped#4 and
+// .../inv:loop1.preserve:no-longer-scoped-seen#4 (property C08; the invariants are the postcondition
+// innermost-scoped-else-root restricted to the keys visited so far): the error handler is a function of
+// the request path and the mount structure alone, and a mount prefix only "contains" a path on a segment
 // boundary.
 // Counterexample: sibling mounts "/api" and "/api-v2", each sub-app with its own ErrorHandler; request
 // path "/api-v2/x". "/api" is a string prefix of the path but not a segment prefix, both prefixes have
